@@ -1,5 +1,6 @@
 import TakVerif.Impl.Bot
 import TakVerif.Impl.Friendly
+import TakVerif.Impl.FPATotal
 import TakVerif.Impl.Minimax
 
 /-! The playtak bot end to end: the protocol loop of `playtak/bot/bot.go` (`Impl/Bot.lean`) run with one of the two
@@ -63,6 +64,9 @@ structure Conf where
   observe : Bool := false
   /-- `fixes/C07-fpa-record-notes.diff` applied (`false`: the tree before it, kept for the counterexamples) -/
   replay : Bool := true
+  /-- `fixes/C07-fpa-script-declines.diff` applied: a script of the double-stack / cairn rule that panics declines instead
+  (`Impl/FPATotal.lean`; `false`: the tree before it - /repo fefa081 -, kept for the counterexamples) -/
+  decline : Bool := true
 
 /-- `Bot.AcceptUndo()` -/
 def Conf.acceptUndo (c : Conf) : Bool :=
@@ -130,13 +134,19 @@ def thinkerAt (b : Bot.St) (k : Nat) : Option Thinker := (thinkers b)[k]?
 def recOf (c : Conf) (b : Bot.St) : GameRec :=
   { color := c.bot.color, size := c.size, positions := b.positions, moves := b.moves }
 
+/-- `(*Friendly).GetMove` of the tree with `fixes/C07-fpa-record-notes.diff`: with the declining scripts of
+`fixes/C07-fpa-script-declines.diff` (`decline = true`) or with the scripts that panic (`false`: /repo fefa081) -/
+def friendlyOf (c : Conf) (fpa : Option (Variant × Rule)) (g : GameRec) (p : Pos) (chk : CheckOracle) :
+    R (Option (Variant × Rule) × Action) :=
+  if c.decline then friendlyGetMoveD fpa g p chk else friendlyGetMove fpa g p chk
+
 /-- `g.bot.GetMove(moveCtx, p, mine, theirs)` up to the search, as a function of what it reads: the rule's notes, the
 record, the position and clock handed in, the check engine's verdicts -/
 def glueOn (c : Conf) (fpa : Option (Variant × Rule)) (positions : List Pos) (moves : List Move) (p : Pos) (mine : Int)
     (chk : CheckOracle) : R (Option (Variant × Rule) × Action) :=
   match c.who with
   | .friendly _ =>
-    if c.replay then friendlyGetMove fpa { color := c.bot.color, size := c.size, positions := positions, moves := moves } p chk
+    if c.replay then friendlyOf c fpa { color := c.bot.color, size := c.size, positions := positions, moves := moves } p chk
     else friendlyGetMovePinned fpa { color := c.bot.color, size := c.size, positions := positions, moves := moves } p chk
   | .taktician tc => .ok (fpa, takticianGetMove tc c.bot.color c.size p mine)
 
